@@ -22,12 +22,17 @@ Metas == { Meta("rt", NoM, NoM),
                         kw |-> <<Kw("shots", I(10)), Kw("flag", BoolE(TRUE)), Kw("l", LstE(<<I(1), F(5, 2), Bin("+", I(1), I(1))>>)), Kw("s", SStr("x")), Kw("z", Cpx(1, -2))>>],
                        [name |-> "foo", hasargs |-> TRUE, args |-> <<>>, kw |-> <<Kw("copies", I(3)), Kw("ls", LstE(<<SStr("a"), BoolE(FALSE)>>))>>]) }
 \* parameter names overlap each other and function names on purpose
-Items == {
+\* declared before every script, so that each statement below is meaningful on its own
+Pre == <<
   [t |-> "var", ty |-> "float", x |-> "v", e |-> F(3, 2)],
   [t |-> "var", ty |-> "int", x |-> "n", e |-> I(2)],
   [t |-> "arr", ty |-> "float", x |-> "M", shape |-> <<>>, rows |-> << <<F(1, 2), NegE(F(3, 2))>>, <<I(2), F(1, 4)>> >>],
   [t |-> "arr", ty |-> "complex", x |-> "Cx", shape |-> <<>>, rows |-> << <<Cpx(1, -2), F(1, 2), I(3)>> >>],
   [t |-> "arr", ty |-> "int", x |-> "Z", shape |-> <<>>, rows |-> << <<I(1)>>, <<NegE(I(4))>> >>],
+  [t |-> "arr", ty |-> "int", x |-> "Ra", shape |-> <<>>, rows |-> << <<I(1), I(2), I(3), I(4)>> >>],
+  [t |-> "arr", ty |-> "int", x |-> "Rb", shape |-> <<>>, rows |-> << <<I(1), I(2)>>, <<I(3), I(4)>> >> ] >>
+Items == {
+  Stmt("Two", TRUE, <<Var("Ra"), Var("Rb")>>, <<Kw("again", Var("Ra"))>>, <<I(0), I(1)>>, "sq"),
   Stmt("Vac", FALSE, <<>>, <<>>, <<I(0)>>, "none"),
   Stmt("K", TRUE, <<>>, <<>>, <<I(1)>>, "none"),
   Stmt("S", TRUE, <<F(1, 2), NegE(F(1, 4)), I(3), Cpx(1, 2), Cpx(0, -1)>>, <<>>, <<I(0)>>, "none"),
